@@ -697,6 +697,19 @@ func main() {
 			}
 		}
 		if c.Replay != "" {
+			var qr struct {
+				Queue *QueueCase `json:"queue"`
+			}
+			if c.LoadReplay(&qr) == nil && qr.Queue != nil {
+				c.Case(rig.Canon(qr.Queue), true, "replay-queue", nil)
+				fs, inconclusive := runQueueCase(*qr.Queue)
+				if inconclusive != "" {
+					c.Count("queue-inconclusive:" + inconclusive)
+				}
+				allFails = append(allFails, fs...)
+				flush()
+				return
+			}
 			var cs Case
 			if err := c.LoadReplay(&cs); err != nil {
 				fmt.Fprintln(os.Stderr, err)
@@ -756,6 +769,21 @@ func main() {
 		}
 		close(ch)
 		wg.Wait()
+		// the queue stream: removals behind an event burst, through the real informer / syncqueue / controller
+		// (after the scripted histories, on a quiet process)
+		for i, nq := 0, c.Budget(2, 8); i < nq && failed < 6; i++ {
+			qc := genQueueCase(c.Rng)
+			c.Case(rig.Canon(qc), true, "queue:"+qc.Kind, func() interface{} { return qc })
+			fs, inconclusive := runQueueCase(qc)
+			if inconclusive != "" {
+				c.Count("queue-inconclusive:" + inconclusive)
+			}
+			if len(fs) > 0 {
+				allFails = append(allFails, fs...)
+				failed++
+			}
+			c.Trace()
+		}
 		flush()
 		for i := 0; i < total.traces; i++ {
 			c.Trace()
